@@ -85,9 +85,11 @@ def rotate1 (R K : M3) : M3 := tdotOuter R (tdotInner R K)
 
 def rotate (R : M3) (t : List M3) : List M3 := t.map (rotate1 R)
 
-/-- `SecondOrderTensor.copy()`: a NEW tensor built by the constructor from the diagonal and the
-    LOWER triangle of `values` (so it re-validates, and symmetrises) -/
-def copySOT (t : List M3) : Except Err (List M3) :=
+/-- `SecondOrderTensor.copy()` AS CODED: a NEW tensor built by the constructor from the diagonal
+    and the LOWER triangle of `values`, so it re-runs the sign checks.  On values produced by
+    `rotate` this can raise although the constructor accepted the tensor (open finding: rounding
+    on singular admissible tensors; exactly, on accepted indefinite ones — see Props). -/
+def copySOTcoded (t : List M3) : Except Err (List M3) :=
   mkSOT { kxx := t.map (fun K => K 0 0), kxy := some (t.map (fun K => K 1 0)),
           kyy := some (t.map (fun K => K 1 1)), kxz := some (t.map (fun K => K 2 0)),
           kyz := some (t.map (fun K => K 2 1)), kzz := some (t.map (fun K => K 2 2)) }
@@ -100,14 +102,24 @@ def select {α : Type} (l : List α) : List Nat → Option (List α)
     | some v, some r => some (v :: r)
     | _, _ => none
 
-/-- `Tensor.restrict_to_cells(cells)` on a second-order tensor: copy, then `values[:, :, cells]` -/
-def restrictSOT (t : List M3) (cells : List Nat) : Except Err (List M3) :=
-  match copySOT t with
+/-- `Tensor.restrict_to_cells(cells)` on a second-order tensor AS CODED: copy, then `values[:, :, cells]` -/
+def restrictSOTcoded (t : List M3) (cells : List Nat) : Except Err (List M3) :=
+  match copySOTcoded t with
   | .error e => .error e
   | .ok t' =>
     match select t' cells with
     | some r => .ok r
     | none => .error .index
+
+/-- `copy()` as the PROPERTY requires it: the same values (a value model has no aliasing), no
+    re-validation.  Agrees with the coded copy on every constructed tensor (`sot_copy_of_constructed`). -/
+def copySOT (t : List M3) : List M3 := t
+
+/-- `restrict_to_cells` as the property requires it: select the cells of a copy -/
+def restrictSOT (t : List M3) (cells : List Nat) : Except Err (List M3) :=
+  match select (copySOT t) cells with
+  | some r => .ok r
+  | none => .error .index
 
 /-! ### specification side for the second-order tensor -/
 
@@ -153,6 +165,10 @@ def lmTab : List (List Int) :=
 def tabI (t : List (List Int)) (i j : Fin 9) : Int := (t.getD i.val []).getD j.val 0
 def muMat : M9 := fun i j => (tabI muTab i j : Rat)
 def lmMat : M9 := fun i j => (tabI lmTab i j : Rat)
+
+/-- position of the pair (j, i) in the 9-index `3·i + j` of (i, j): the minor symmetries exchange
+    `I` with `swapIdx I` in the row (c_ijkl = c_jikl) or in the column (c_ijkl = c_ijlk) -/
+def swapIdx (I : Fin 9) : Fin 9 := ⟨3 * (I.val % 3) + I.val / 3, by omega⟩
 
 /-- one entry of `other_fields`: the 9×9 basis matrix and the cell-wise field -/
 structure Extra where
